@@ -42,8 +42,8 @@ def eof_retires_stream(ctx, E, dr, Td, rule):
     stores = [(bb, si, s) for bb in dr.live_blocks() for si, s in enumerate(dr.blocks[bb]["stmts"])
               if s["k"] == "assign" and s["p"]["l"] == 1 and [e["k"] for e in s["p"]["proj"]] == ["deref"]]
     is_n = lambda x: M.strip(x)[0] == "call" and n_term is not None and M.strip(x)[3] == n_term[3] and M.strip(x)[1] == n_term[1]
-    zero_e = bool_edges(dr, Td, lambda c: c[0] == "bin" and c[1] == "Ne" and const_of(c[3]) == 0 and is_n(c[2]), False) + \
-        bool_edges(dr, Td, lambda c: c[0] == "bin" and c[1] == "Eq" and const_of(c[3]) == 0 and is_n(c[2]), True)
+    # (`n == 0`, `!(n != 0)`, or the `0` arm of `match n`)
+    zero_e = int_eq_edges(dr, Td, is_n, 0)
     ok = len(stores) == 1 and Td.rvalue(stores[0][2]["r"]) == ("agg", ("adt", "std::option::Option", "None"), ()) and dominated_by_edges(dr, stores[0][0], zero_e)
     ctx.ob(rule, "eof-retires-stream", ok, dr.loc(stores[0][0] if stores else 0), "on a 0-byte read (EOF) the stream must be retired (*source_ref = None); otherwise the loop polls a hung-up pipe forever")
     return stores, zero_e
@@ -202,11 +202,7 @@ def run(ctx):
 
     # ---- R01.3 bounded write ------------------------------------------------------------------
     for bb, t in E.writes:
-        ch = M.noref(T.operand(t["args"][1]))
-        bound = None
-        if ch[0] == "call" and "index" in ch[1].lower() and ch[2][1][0] == "agg" and ch[2][1][1][1] == "std::ops::RangeTo":
-            end = ch[2][1][2][0]
-            bound = upper_const(end)
+        _base, bound = chunk_of(T.operand(t["args"][1]))
         ctx.ob("R01.3", "write-chunk<=PIPE_BUF", bound is not None and bound <= PIPE_BUF, ri.loc(bb),
                "one write after POLLOUT is bounded by %s bytes (must be a constant <= PIPE_BUF = %d: a larger write can block although poll reported writability, and the parent then stops draining the child's output)" % (bound, PIPE_BUF))
 
@@ -217,7 +213,8 @@ def run(ctx):
         rets = dr.return_blocks()
         okp = all(dominated_by_blocks(dr, r, [stores[0][0]], start=zero_e[0][1]) for r in rets if r in dr.reachable(zero_e[0][1]))
         ctx.ob("R01.4", "eof-retires-on-every-path", okp, dr.loc(stores[0][0]), "no path from the EOF edge to return may skip the retirement")
-    takes = [(bb, t) for bb, t in ri.calls() if M.callee_str(t["f"]) == "std::option::Option::<T>::take" and M.noref(T.operand(t["args"][0])) == ("field", E.selfp, "stdin")]
+    rel_, _other = stdin_releases(ri, T, E.selfp)
+    takes = [(bb, t) for bb, kind, t in rel_]
     def done_atom(c):
         """+1: the input is exhausted (cursor == / >= length, or the rest of the input is empty); -1: its negation"""
         pos = ("field", E.selfp, "input_pos")
@@ -247,7 +244,7 @@ def run(ctx):
         back = [b for b in region if b in E.loop and E.mp_call[0] in ri.succs(b)] + ([E.mp_call[0]] if E.mp_call[0] in region else [])
         ctx.ob("R01.4", "stdin-closed-on-every-path", not back, ri.loc(takes[0][0]), "once the input is exhausted every path to the next poll closes stdin first")
         # the result of take is dropped, not kept
-        ctx.ob("R01.4", "taken-stdin-is-dropped", only_dropped(ri, takes[0][1]["dest"]["l"]), ri.loc(takes[0][0]), "the File taken out of self.stdin must be dropped right away")
+        ctx.ob("R01.4", "taken-stdin-is-dropped", takes[0][1] is None or only_dropped(ri, takes[0][1]["dest"]["l"]), ri.loc(takes[0][0]), "the File taken out of self.stdin must be dropped right away")
 
     # ---- R01.9 one blocking I/O step per readiness report ------------------------------------------------------------------
     # poll() vouches for *one* read / one bounded write on a stream; a second read of the same stream without a new poll can block on an
